@@ -795,6 +795,23 @@ func (c *Ctx) classifyLen(e *encFunc, fm *family, r encRow, l leaf) string {
 		}
 	}
 	if l.Kind == "arith" && l.V != nil {
+		// the value equals the length the record's buffer was allocated with (and nothing is appended to it
+		// later): it is the final record length, computed before the buffer instead of read from it
+		if fm != nil && !fm.hasAppend() {
+			if _, isMk := fm.Root.(*ssa.MakeSlice); isMk && f.pin(f.LFOf(l.V), r.Facts).key() == f.pin(fm.InitLen, r.Facts).key() {
+				// a length that is a sum of field lengths keeps its symbolic form (the reference names it so);
+				// one that involves computed pieces (the body returned by a nested encoder) is the record length
+				onlyFields := true
+				for a := range f.pin(f.LFOf(l.V), r.Facts).T {
+					if f.fieldOfLenAtom(a) == "" {
+						onlyFields = false
+					}
+				}
+				if !onlyFields {
+					return "len(record)"
+				}
+			}
+		}
 		return "val:" + c.symOffset(f, x, f.pin(f.LFOf(l.V), r.Facts))
 	}
 	if l.Kind == "call" {
